@@ -299,7 +299,7 @@ where
         })
         .collect();
     let pr = probes.clone();
-    let stats = bfs(
+    let stats = kit::engine::bfs_r(
         run,
         &format!("coin.{}", H::NAME),
         init,
@@ -340,7 +340,36 @@ where
             succ
         },
         |s: &St| s.key.clone(),
-        |s: &St| json!({"hasher": H::NAME, "history": format!("{:?}", s.hist)}),
+        |s: &St| {
+            let codes: Vec<[u64; 4]> = s
+                .hist
+                .iter()
+                .map(|o| match *o {
+                    COp::New(a) => [0, a as u64, 0, 0],
+                    COp::Reseed(a) => [1, a as u64, 0, 0],
+                    COp::Draw(a) => [2, a as u64, 0, 0],
+                    COp::Ints(a, b, c) => [3, a as u64, b as u64, c as u64],
+                    COp::Lz(a) => [4, a as u64, 0, 0],
+                })
+                .collect();
+            json!({"hasher": H::NAME, "history": format!("{:?}", s.hist), "replay": codes})
+        },
+        |v: &kit::Value| {
+            let mut hist = vec![];
+            for c in v["replay"].as_array()? {
+                let g = |i: usize| c[i].as_u64();
+                hist.push(match g(0)? {
+                    0 => COp::New(g(1)? as u8),
+                    1 => COp::Reseed(g(1)? as u8),
+                    2 => COp::Draw(g(1)? as u8),
+                    3 => COp::Ints(g(1)? as u16, g(2)? as u8, g(3)? as u8),
+                    4 => COp::Lz(g(1)? as u8),
+                    _ => return None,
+                });
+            }
+            let e = execute::<H>(&hist, false);
+            Some(St { hist, key: e.key })
+        },
     );
     // oracle 2, other direction: different states => different next outputs
     let m = probes.lock().unwrap();
